@@ -915,11 +915,14 @@ impl<
 
         let start = Instant::now();
 
+        // The sharding must be set up using the actual number of keys before
+        // the signatures are divided into shards, as the expected number of
+        // keys, if any, might have been wrong
+        shard_edge.set_up_shards(self.num_keys, self.eps);
         let shard_store = sig_store.into_shard_store(shard_edge.shard_high_bits())?;
         let max_shard = shard_store.shard_sizes().iter().copied().max().unwrap_or(0);
         let filter = TypeId::of::<V>() == TypeId::of::<EmptyVal>();
 
-        shard_edge.set_up_shards(self.num_keys, self.eps);
         (self.c, self.lge) = shard_edge.set_up_graphs(self.num_keys, max_shard);
 
         if filter {
